@@ -217,12 +217,30 @@ class Taint:
                             if i < len(cfa.param_names) and (container or self.tainted(fa, a)):
                                 names = [cfa.param_names[i]]
                                 if names[0].startswith("#"):
-                                    names += [n for n, v in cfa.params.items()]
+                                    # a destructuring parameter pattern: the names it binds
+                                    names += _pat_names(callee["params"][i].get("pat")) if i < len(callee["params"]) else []
                                 for nmx in names:
                                     key = (callee["path"], nmx)
                                     if key not in self.tparams:
                                         self.tparams.add(key)
                                         changed = True
+
+
+def _pat_names(pat):
+    out = []
+    if not isinstance(pat, dict):
+        return out
+    if pat.get("k") == "Bind" and pat.get("name"):
+        out.append(pat["name"])
+        out += _pat_names(pat.get("sub"))
+    for key in ("pats",):
+        for q in pat.get(key) or []:
+            out += _pat_names(q)
+    for fl in pat.get("fields") or []:
+        out += _pat_names(fl.get("pat"))
+    if pat.get("k") in ("RefPat", "GuardPat"):
+        out += _pat_names(pat.get("pat"))
+    return out
 
 
 def default_sources(ctx):
@@ -322,10 +340,13 @@ def guard_le_const(p, upto, l, ev=None):
             if op is None:
                 continue
             K = None
-            if aff_eq(a, la) and not b[1]:
-                K = b[0] if op == "<=" else (b[0] - 1 if op == "<" else None)
-            elif aff_eq(b, la) and not a[1]:
-                K = a[0] if op == ">=" else (a[0] - 1 if op == ">" else None)
+            # the tested quantity may be l plus a constant (`let next = depth + 1; if next > MAX { .. }`): same variable part, constant offset
+            if a[1] == la[1] and a[1] and not b[1]:
+                off = a[0] - la[0]
+                K = (b[0] - off) if op == "<=" else (b[0] - 1 - off if op == "<" else None)
+            elif b[1] == la[1] and b[1] and not a[1]:
+                off = b[0] - la[0]
+                K = (a[0] - off) if op == ">=" else (a[0] - 1 - off if op == ">" else None)
             if K is not None:
                 best = K if best is None else min(best, K)
     return best
@@ -631,6 +652,7 @@ def r_depth_admits(ctx):
         fa = ctx.fa(f)
         fn = f["path"]
         budget = None
+        Ke = None
         for p in fa.paths:
             for e in p.events:
                 if e.kind == "call" and e.d["fn"] == fn:
@@ -643,6 +665,8 @@ def r_depth_admits(ctx):
                             K = guard_le_const(p, e.seq, pa)
                             if K is not None:
                                 budget = (i, d[0], K)
+                                dec = [x for x in p.events if x.kind == "call" and x.seq < e.seq and x.d["fn"].startswith("directory::Directory::from_") and "reader" in x.d["fn"]]
+                                Ke = guard_le_const(p, dec[0].seq, pa) if dec else None
         if budget is None:
             obs.append(Ob("R-WALK-DEPTH", fn, "depth budget", False, "no constant-step, constant-limit depth parameter found", rel(f["loc"])))
             continue
@@ -665,9 +689,18 @@ def r_depth_admits(ctx):
                         if a0[1]:
                             obs.append(Ob("R-WALK-DEPTH", g["path"], "walk starts at a constant depth", False, "initial depth = %s" % aff_str(a0), e.loc()))
                             continue
-                        levels = (K - a0[0]) // step + 1 if K >= a0[0] else 0
+                        # walk the chain: a level is decoded if the guard in front of the decode (if any) admits the depth; the next level is
+                        # entered if the guard in front of the recursive call admits it
+                        d_, levels = a0[0], 0
+                        while levels < 64:
+                            if Ke is not None and d_ > Ke:
+                                break
+                            levels += 1
+                            if d_ > K:
+                                break
+                            d_ += step
                         obs.append(Ob("R-WALK-DEPTH", g["path"], "the depth budget admits ≥ %d directory levels" % MIN_DIRECTORY_LEVELS, levels >= MIN_DIRECTORY_LEVELS,
-                                      "start %d, step %d, recursion allowed while depth ≤ %d ⇒ %d levels" % (a0[0], step, K, levels), e.loc(), {"levels": levels}))
+                                      "start %d, step %d, decode allowed while depth ≤ %s, recursion while depth ≤ %d ⇒ %d levels" % (a0[0], step, Ke if Ke is not None else "∞", K, levels), e.loc(), {"levels": levels}))
         if callers == 0:
             obs.append(Ob("R-WALK-DEPTH", fn, "external entry", False, "no non-recursive caller of the walker found", rel(f["loc"])))
     return obs
@@ -688,12 +721,13 @@ def r_depth_twins(ctx):
 
 def _is_limit(d, pa):
     """the decision establishes `pa` > constant (in either operand order)"""
+    pv = affine(pa)[1]
     for f in decision_facts(d):
         if f[0] == "rel":
-            op, l, r = f[1], f[2], f[3]
-            if op in (">", ">=") and l == pa and affine(r)[1] == {}:
+            op, l, r = f[1], unmut(f[2]), unmut(f[3])
+            if op in (">", ">=") and affine(l)[1] == pv and affine(r)[1] == {}:
                 return True
-            if op in ("<", "<=") and r == pa and affine(l)[1] == {}:
+            if op in ("<", "<=") and affine(r)[1] == pv and affine(l)[1] == {}:
                 return True
     return False
 
